@@ -349,6 +349,44 @@ class Gen:
                 t = bytearray(bytes.fromhex(ct)); t[-1 - self.r.below(16)] ^= 1 << self.r.below(8)
                 self.add("a_cbcpad dec %s %s %s 0" % (hexs(k), hexs(iv), hexs(bytes(t))), "a_cbcpad:dec:k%d:tampered" % len(k))
 
+    def padding_cases(self, impl_exe):
+        """the case split of PKCS#7 removal (sm4: every padding byte, since 75d04f0; aes: last byte only):
+        chosen final plaintext blocks are encrypted without padding by the implementation's raw CBC block
+        functions (inputs only), then fed to the padding-removing decryptors, one-shot and streaming"""
+        r = self.r
+        jobs = []   # (cipher, key, iv, plaintext, cell class)
+        def final_blocks():
+            for pad in range(1, 17):
+                good = r.bytes(16 - pad) + bytes([pad]) * pad
+                yield good, "pad-valid:p=%s" % ("1" if pad == 1 else "16" if pad == 16 else "mid")
+                for j in range(16 - pad, 15):          # one wrong interior padding byte, each position
+                    b = bytearray(good); b[j] ^= 1 + r.below(255)
+                    yield bytes(b), "pad-interior-wrong"
+                if pad >= 2:                           # .. and two wrong ones
+                    b = bytearray(good); b[16 - pad] ^= 0x80; b[14] ^= 0x01
+                    yield bytes(b), "pad-interior-wrong"
+            for last in (0, 17, 32, 255):
+                yield r.bytes(15) + bytes([last]), "pad-range"
+        for blk, cls in final_blocks():
+            key, iv = self.key(), r.bytes(16)
+            pre = r.bytes(16 * r.choice([0, 0, 1, 3]))
+            jobs.append(("sm4", key, iv, pre + blk, cls))
+            if cls != "pad-valid:p=mid" or r.chance(1, 3):
+                jobs.append(("aes", r.bytes(r.choice([16, 24, 32])), iv, pre + blk, cls))
+        lines = [("cbcblocks enc %s %s %s 0" if c == "sm4" else "a_cbcblocks enc %s %s %s 0") % (hexs(k), hexs(iv), hexs(pt))
+                 for (c, k, iv, pt, _) in jobs]
+        outs, _ = core.run_lines(impl_exe, lines)
+        for (c, k, iv, pt, cls), o in zip(jobs, outs):
+            ct = (o or "").split(" ")[-1]
+            if not re.fullmatch(r"[0-9a-f]+", ct) or len(ct) != 2 * len(pt):
+                continue
+            if c == "sm4":
+                self.add("cbcpad dec %s %s %s 0" % (hexs(k), hexs(iv), ct), "cbcpad:dec:" + cls)
+                ch = r.split(bytes.fromhex(ct), r.range(1, 4))
+                self.add("s_cbc dec %s %s %s 0" % (hexs(k), hexs(iv), chunks_str(ch)), "s_cbc:dec:" + cls)
+            else:
+                self.add("a_cbcpad dec %s %s %s 0" % (hexs(k), hexs(iv), ct), "a_cbcpad:dec:" + cls)
+
     def cbc_decrypt_cases(self, impl_exe):
         """ciphertexts for the decrypt direction are produced by the implementation itself (they are
         only inputs; what is checked is how both sides decrypt them)"""
@@ -432,6 +470,7 @@ def run(ctx):
         if model_out is None:
             g.cbc_decrypt_cases(exe)
             g.aes_decrypt_cases(exe)
+            g.padding_cases(exe)
             t0 = time.time()
             model_out, _ = core.run_lines(model, [c[0] for c in g.cases])
             ctx.notes.append("model: %.1fs, %d cases (evaluated once, compared with every variant)" % (time.time() - t0, len(g.cases)))
@@ -470,7 +509,7 @@ def compare(ctx, cases, impl_exe, model_out, variant):
 def finish(ctx):
     ctx.assumptions = [
         "SM4 Spec = my transcription of GB/T 32907-2016 (S-box, L, L', FK, CK_i formula), pinned by the appendix-A vector (Example sm4_vector, vm_compute)",
-        "mode Specs = my transcription of GB/T 17964 / SP 800-38A (ECB, CBC, CTR, OFB, CFB-s), PKCS#7 (removal inspects the last byte only, as the library does), GB/T 17964 XTS (GCM bit order tweak), zero-padded CBC-MAC as implemented",
+        "mode Specs = my transcription of GB/T 17964 / SP 800-38A (ECB, CBC, CTR, OFB, CFB-s), PKCS#7 (SM4: removal checks every padding byte, characterised by C04_pkcs7_unpad_strict_iff; aes_modes.c: last byte only, as that code does), GB/T 17964 XTS (GCM bit order tweak), zero-padded CBC-MAC as implemented",
         "XTS: raw functions = index-form Spec and xts_mul2 (bit-reversed words of gf128.c) = multiplication by x are theorems since wave 3; the driver still compares Impl with Spec on every case",
         "the rotating register names of the unrolled ROUND lines and the word-wise xor of the table-driven *_blocks functions are modelled at block level",
         "C04_impl_block_functions_eq_spec uses functional_extensionality_dep (Coq standard library); everything else is closed",
